@@ -274,10 +274,9 @@ package components
 //@   atcall io/ioutil.ReadFile reads-the-file-that-arrived[C19]: $arg0 == inIP.path
 //@   atcall (*OutPort).Send outputs-sent-only-after-every-input-was-written[C19]: chanRecvN(p.inPorts["in"].Chan) == chanTotal(p.inPorts["in"].Chan)
 //@   atcall (*os.File).Write writes-the-content-just-read-or-its-newline-to-the-file-of-its-group[C19]: ($arg1 == dat || $arg1 == "\n") && (tagVal != "" ==> $arg0 == outFhsByTag[tagVal])
-//@   atcall (*os.File).Write untagged-content-goes-to-the-main-output-file[C19]: tagVal == "" ==> createdName($arg0) == outIP.path
-//@   atcall (*os.File).Write tagged-content-goes-to-the-file-of-its-group[C19]: tagVal != "" ==> tagVal in outIPsByTag && createdName($arg0) == outIPsByTag[tagVal].path
+//@   atcall (*os.File).Write untagged-content-goes-to-the-main-output-file[C19]: tagVal == "" ==> createdName($arg0) == p.OutPath
 //@   assumecall (*FileIP).AddTag the-new-group-ip-has-a-record: ptr(FileIP, $arg0).auditInfo != nil
-//@   loop 0 invariant stable: p == old(p) && p.outPorts == old(p.outPorts) && p.inPorts == old(p.inPorts) && p.inPorts["in"] == old(p.inPorts["in"]) && p.inPorts["in"].Chan == old(p.inPorts["in"].Chan) && wfSrcOut(p.BaseProcess, "out") && "in" in p.inPorts && p.inPorts["in"] != nil && p.inPorts["in"].Chan != nil && outIPsByTag != nil && outFhsByTag != nil && validIP(outIP) && (forall k string :: k in outIPsByTag ==> validIP(outIPsByTag[k]))
+//@   loop 0 invariant stable: p == old(p) && p.OutPath == old(p.OutPath) && outIP.path == p.OutPath && p.outPorts == old(p.outPorts) && p.inPorts == old(p.inPorts) && p.inPorts["in"] == old(p.inPorts["in"]) && p.inPorts["in"].Chan == old(p.inPorts["in"].Chan) && wfSrcOut(p.BaseProcess, "out") && "in" in p.inPorts && p.inPorts["in"] != nil && p.inPorts["in"].Chan != nil && outIPsByTag != nil && outFhsByTag != nil && validIP(outIP) && (forall k string :: k in outIPsByTag ==> validIP(outIPsByTag[k]))
 //@   loop 1 invariant stable: p == old(p) && p.outPorts == old(p.outPorts) && p.inPorts == old(p.inPorts) && p.inPorts["in"] == old(p.inPorts["in"]) && p.inPorts["in"].Chan == old(p.inPorts["in"].Chan) && wfSrcOut(p.BaseProcess, "out")
 //@   loop 1 invariant drained: chanRecvN(p.inPorts["in"].Chan) == chanTotal(p.inPorts["in"].Chan)
 //@   loop 1 invariant out-valid: validIP(outIP) && outIPsByTag != nil
